@@ -34,6 +34,7 @@ from krrood.entity_query_language.predicate import Symbol  # noqa: E402
 class Part(Symbol):
     name: str
     size: int = 1
+    tag: int = field(default=1, compare=False)       # not part of == / hash: equal parts may differ in it
 
 
 @dataclass(unsafe_hash=True)
@@ -58,9 +59,8 @@ class Unit(Symbol):
     def __hash__(self):
         return hash((self.knob, self.box))
 
-    def __eq__(self, o):
-        return (isinstance(o, Unit) and self.knob == o.knob and self.box == o.box and self.part == o.part
-                and self.parts == o.parts)
+    def __eq__(self, o):          # ignores `parts`: two distinct units may be == and still hold different parts
+        return isinstance(o, Unit) and self.knob == o.knob and self.box == o.box and self.part == o.part
 
 
 @dataclass
@@ -91,8 +91,8 @@ CLASSES = {"int": int, "str": str, "Part": Part, "Knob": Knob, "Box": Box, "BigB
            "Rack": Rack, "WideRack": WideRack}
 CID = {n: i + 1 for i, n in enumerate(CLASSES)}          # 0 = no class
 OBJ_CLASSES = ["Part", "Knob", "Box", "BigBox", "Unit", "Rack", "WideRack"]
-ATTR = {"name": 0, "size": 1, "knob": 2, "box": 3, "part": 4, "parts": 5, "units": 6}
-FIELDS = {"Part": ["name", "size"], "Unit": ["knob", "box", "part", "parts"], "Rack": ["box", "part", "units", "parts"]}
+ATTR = {"name": 0, "size": 1, "knob": 2, "box": 3, "part": 4, "parts": 5, "units": 6, "tag": 7}
+FIELDS = {"Part": ["name", "size", "tag"], "Unit": ["knob", "box", "part", "parts"], "Rack": ["box", "part", "units", "parts"]}
 BASE = {"Knob": "Part", "Box": "Part", "BigBox": "Part", "WideRack": "Rack"}       # where the fields are declared
 STR0 = 1000
 STRS = ["n0", "n1", "n2"]
@@ -138,13 +138,14 @@ def gen_world(rng: core.Rng) -> List[dict]:
     knobs, boxes = [], []
     for _ in range(rng.randint(2, 3)):
         knobs.append(len(objs))
-        objs.append({"cls": "Knob", "name": rng.choice(STRS[:2]), "size": rng.randint(1, 2)})
+        objs.append({"cls": "Knob", "name": rng.choice(STRS[:2]), "size": rng.randint(1, 2), "tag": rng.randint(1, 2)})
     for _ in range(rng.randint(2, 3)):
         boxes.append(len(objs))
-        objs.append({"cls": rng.choice(["Box", "Box", "BigBox"]), "name": rng.choice(STRS[:2]), "size": rng.randint(1, 2)})
+        objs.append({"cls": rng.choice(["Box", "Box", "BigBox"]), "name": rng.choice(STRS[:2]), "size": rng.randint(1, 2),
+                     "tag": rng.randint(1, 2)})
     if rng.chance(0.3):
         boxes.append(len(objs))
-        objs.append(dict(objs[boxes[0]]))                 # value-equal twin of a box
+        objs.append(dict(objs[boxes[0]], tag=rng.randint(1, 2)))      # value-equal twin of a box (tag may differ)
     parts = knobs + boxes
     units = []
     for _ in range(rng.randint(2, 4)):
@@ -153,7 +154,9 @@ def gen_world(rng: core.Rng) -> List[dict]:
                      "parts": rng.sample(parts, rng.randint(0, 3))})
     if rng.chance(0.4):
         units.append(len(objs))
-        objs.append(dict(objs[units[0]], parts=list(objs[units[0]]["parts"])))      # value-equal twin of a unit
+        # a twin of a unit under ==; half of the time it holds other parts (Unit.__eq__ ignores them)
+        objs.append(dict(objs[units[0]], parts=rng.sample(parts, rng.randint(0, 3)) if rng.chance(0.5)
+                         else list(objs[units[0]]["parts"])))
     racks = []
     for _ in range(rng.randint(3, 5)):
         racks.append(len(objs))
@@ -171,7 +174,7 @@ def build_world(objs: List[dict]) -> List[Any]:
     for o in objs:
         c = CLASSES[o["cls"]]
         if issubclass(c, Part):
-            built.append(c(o["name"], o["size"]))
+            built.append(c(o["name"], o["size"], o.get("tag", 1)))
         elif c is Unit:
             built.append(Unit(built[o["knob"]], built[o["box"]], built[o["part"]], [built[i] for i in o["parts"]]))
         else:
@@ -282,7 +285,7 @@ def gen_alist(rng: core.Rng, objs: List[dict], cname: str, depth: int, wild: boo
                 ap = ["match", gen_type(rng, end), None, "any" if rng.chance(0.1) else "match"]
         if ap[0] == "match":
             ap[2] = gen_alist(rng, objs, end, depth - 1, wild)
-            if ap[2] == [] and not wild and it and not (ap[1] and ap[1] != end and issub(ap[1], end)):
+            if ap[2] == [] and not wild and it and not (ap[1] and not issub(end, ap[1])):
                 ap[2] = gen_alist(rng, objs, end, 1, wild)
         out.append([a, ap])
     return out
@@ -331,10 +334,10 @@ def case_term(d: dict, keys: List[int]) -> str:
     for i, o in enumerate(objs):
         attrs = []
         for a in fields_of(o["cls"]):
-            v = o[a]
+            v = o.get(a, 1) if a == "tag" else o[a]
             if a == "name":
                 t = f"VI {STR0 + STRS.index(v)}"
-            elif a == "size":
+            elif a in ("size", "tag"):
                 t = f"VI {v}"
             elif isinstance(v, list):
                 t = f"VLO {core.zlist(j + 1 for j in v)}"
@@ -444,8 +447,8 @@ def classify(d: dict) -> Dict[str, int]:
     def hit(k):
         cl[k] = cl.get(k, 0) + 1
 
-    def tfilter(T, end):
-        return bool(T) and T != end and issub(T, end)
+    def tfilter(T, end):          # is_type_filter_needed (since a8e94bb)
+        return bool(T) and not issub(end, T)
 
     def first_cond(al, cname):
         """kind of the first condition the alist emits: None | 'exists' | 'other'"""
@@ -520,6 +523,59 @@ def gen_cases(tier: str, seed: int) -> List[dict]:
     return out
 
 
+def gen_directed(tier: str, seed: int) -> List[dict]:
+    """directed cases: a nested match on a collection whose first keyword is a match_any that SEVERAL members witness and
+    whose second keyword only a LATER member satisfies (optionally a twin under == of an earlier member), with the root
+    keyword written before or after the nested one"""
+    ft = field_table()
+    rng = core.Rng(seed).fork(1112)
+    out = []
+    tries = 0
+    want = 250 if tier == "quick" else 1500
+    while len(out) < want and tries < want * 20:
+        tries += 1
+        r = rng.fork(tries)
+        objs = gen_world(r)
+        racks = [i for i, o in enumerate(objs) if o["cls"] in ("Rack", "WideRack") and len(o["units"]) >= 2]
+        if not racks:
+            continue
+        ri = r.choice(racks)
+        us = objs[ri]["units"]
+        j = r.randint(1, len(us) - 1)
+        ut, u0 = objs[us[j]], objs[us[0]]
+        # second keyword: true of the target unit, false of the first one
+        second = None
+        for a in r.sample(["box", "knob", "part", "parts"], 4):
+            if a == "parts":
+                extra = [x for x in ut["parts"] if x not in u0["parts"]]
+                if extra:
+                    second = ["parts", ["lit", ["o", r.choice(extra)]]]
+            elif ut[a] != u0[a]:
+                second = [a, ["lit", ["o", ut[a]]]]
+            if second:
+                break
+        if not second:
+            continue
+        # first keyword: a match_any both units witness
+        firsts = []
+        for a in ("knob", "box", "part"):
+            if a != second[0]:
+                firsts.append([a, ["any", ["lo", sorted({ut[a], u0[a]})]]])
+        common = [x for x in ut["parts"] if x in u0["parts"]]
+        if common and second[0] != "parts":
+            firsts.append(["parts", ["any", ["lo", [r.choice(common)]]]])
+        if not firsts:
+            continue
+        first = r.choice(firsts)
+        inner = [first, second] if r.chance(0.8) else [second, first]
+        nested = ["units", ["match", r.choice(["Unit", "Unit", None]), inner, "match"]]
+        rootkw = ["box", ["lit", ["o", objs[ri]["box"]]]] if r.chance(0.5) else ["part", ["match", "Part", [["name", ["lit", ["s", objs[objs[ri]["part"]]["name"]]]]], "match"]]
+        k = r.randint(0, 2)
+        pat = [nested] if k == 0 else ([rootkw, nested] if k == 1 else [nested, rootkw])
+        out.append({"objs": objs, "T": "Rack", "pat": pat, "dom": list(range(len(objs)))})
+    return out
+
+
 def snippet(d: dict) -> str:
     return ("import json; from harness import c11; d = json.loads(%r); out, keys, built = c11.run_impl(d); "
             "print('returned', out, 'expected', c11.py_spec(d, built))") % json.dumps(d)
@@ -558,7 +614,7 @@ def gen_letvalue_cases(tier: str, seed: int) -> List[dict]:
 
 
 TYPEERROR = [-1, sum(map(ord, "TypeError"))]
-KF_CLASSES = ("K_emptynested", "K_unrelated")   # K_emptylist (C11-b) and K_existsfirst (C11-c) are repaired: counted, never tolerated
+KF_CLASSES = ("K_emptynested",)   # K_emptylist (C11-b), K_existsfirst (C11-c), K_unrelated (C11-d) are repaired: counted, never tolerated
 UNSPEC = ("U_in", "U_all_scalar")
 
 
@@ -584,7 +640,7 @@ def run(tier: str, seed: int, replay=None) -> int:
                 "Rack/WideRack/Unit, random patterns of depth <= 3 with 0-3 keywords per level in random order: scalar literal, object "
                 "literal, literal list, match_any/match_all over value lists, nested match/match_any with declared / narrower / wider / "
                 "missing / unrelated type; 35% of the patterns may also use empty value lists, in_ on scalars, match_all on scalars, empty nested matches; "
-                "distinct = distinct (world, pattern, domain); non-trivial = the expected answer is neither empty nor the whole domain of T")
+                "distinct = distinct (world, pattern, domain); non-trivial = the expected answer is neither empty nor the whole domain of T; plus 250 / 1500 directed cases (nested match on a collection: a match_any several members witness followed or preceded by a keyword only a later member satisfies, root keyword before / after / absent; Unit.__eq__ ignores `parts` and Part.tag is not compared, so == twins differ)")
     ok_spec, log = core.coq_make(["Base/Sx.vo", "Eql/MatchSpecShow.vo"])
     rep.oblige("build:spec", ok_spec, "" if ok_spec else core.first_error(log))
     model_ok = core.standard_proof_steps(
@@ -603,7 +659,7 @@ def run(tier: str, seed: int, replay=None) -> int:
         if cdir.is_dir():
             for p in sorted(cdir.glob("*.json")):
                 corpus.append((p.name, json.loads(p.read_text())))
-        descrs = [c["case"] for _, c in corpus] + gen_cases(tier, seed)
+        descrs = [c["case"] for _, c in corpus] + gen_cases(tier, seed) + gen_directed(tier, seed)
     # keywords whose value is a let-variable: side stream (implementation vs direct Python predicate, no Coq term)
     var_descrs = [d for d in descrs if has_var(d["pat"])] + ([] if replay else gen_letvalue_cases(tier, seed))
     corpus = [(n, c) for n, c in corpus if not has_var(c["case"]["pat"])]
